@@ -164,7 +164,10 @@ CHECKS = {
                 "rotate (symbolic angle, centre), translate, mirror (axis / general normal), flip o flip, triangulate (quad; hexahedron modes 0 and 3), expand (symbolic thickness), revolve (orientation), "
                 "add_midpoints_edges / faces / volumes, convert(order=2), concatenate, stack, disconnect: total measure preserved (1e-9 where trigonometric / root atoms occur, else exact) and all new cells positively "
                 "oriented; inserted mid-points are the centroids of the corner points of their edge / face / cell (also for one tetrahedron with 12 symbolic coordinates). merge_duplicate_points on concrete data.",
-        "note": "Circle, Triangle, fill_between, runouts, arbitrary-order Lagrange meshes and unbounded transformation programs are outside; merge_duplicate_points is run concretely (np.unique(axis=0) cannot take symbolic rows).",
+        "note": "Also: Triangle(a, b, c, n) with symbolic corners (concolic sweep, griddata contract stub), Circle for enumerated (n, sections) with symbolic radius / centre and for extreme radii, "
+                "transformation programs of 2-4 steps, a tapered planar-faced hexahedron for the tetrahedral splits, concatenation of unequal meshes, revolve with angle arrays, integer-typed point arrays, "
+                "merge_duplicate_points over a table of decimals (concrete data: np.unique(axis=0) cannot take symbolic rows). Known finding (reported as KNOWN-FINDING, exit 0): revolve yields negatively "
+                "oriented cells for axis=1 at x > 0 and for axis=0 at y < 0. Outside: runouts, arbitrary-order Lagrange meshes, longer programs, Pappus volume of revolved meshes.",
     },
 }
 NOT_APPLICABLE = {}
